@@ -156,7 +156,8 @@ struct PkgEngine : Engine {
 			unsigned dk = (unsigned)w.below(6);
 			if (dk >= 1) o["dir"] = dk == 1 ? "/sim/assets/" : "/sim/assets";
 			o["env"] = gen_env(en);
-			if (w.chance(1, 10)) { o["k"] = "CLI_PKG"; o["ext"] = 0; o["lang"] = 0; o["dir"] = "/sim/assets"; }      // the command line tool: -t FORMAT -o FILE (observe_at: file written by CLI -o)
+			if (w.chance(1, 3)) o["also"] = w.chance(1, 2) ? "s" : "d";      // the same package through mmd_string_convert_to_data / mmd_d_string_convert_to_data, same environment
+			if (w.chance(1, 10)) { o["k"] = "CLI_PKG"; o["ext"] = 0; o["lang"] = 0; o["dir"] = "/sim/assets"; o.erase("also"); }      // the command line tool: -t FORMAT -o FILE (observe_at: file written by CLI -o)
 			ops.push(o);
 		}
 		p["ops"] = ops;
@@ -269,6 +270,25 @@ struct PkgEngine : Engine {
 				o["rand_draws"] = (int64_t)(g_sim.rand_draws - draws0);
 				IN_LIB_V(mmd_engine_free(e, true));
 				g_log.ev("pkg", digest(archive));
+				if (op.has("also")) {
+					// "DString returned by mmd_*_convert_to_data": the other two API families, under exactly the same environment
+					// (clock, libc PRNG state, per-path open counters) - the archive must come out byte-identical; if it does not, it is
+					// judged on its own by the structural clauses
+					apply_env(op);
+					for (auto & f : g_sim.files) f.second.opens = 0;
+					std::string a2;
+					if (op.gets("also") == "s") {
+						DString * r2 = IN_LIB(mmd_string_convert_to_data(doc.c_str(), (unsigned long)op.geti("ext"), (short)op.geti("fmt"), (short)op.geti("lang"), dir));
+						if (r2) { a2.assign(r2->str, r2->currentStringLength); IN_LIB_V(d_string_free(r2, true)); }
+					} else {
+						DString * src = IN_LIB(d_string_new(doc.c_str()));
+						DString * r2 = IN_LIB(mmd_d_string_convert_to_data(src, (unsigned long)op.geti("ext"), (short)op.geti("fmt"), (short)op.geti("lang"), dir));
+						if (r2) { a2.assign(r2->str, r2->currentStringLength); IN_LIB_V(d_string_free(r2, true)); }
+						IN_LIB_V(d_string_free(src, true));
+					}
+					if (a2 == archive) probes["other_api_family_identical"]++; else { o["archive2"] = a2; probes["other_api_family_differs"]++; }
+					g_log.ev("pkg2", digest(a2));
+				}
 				st.insert("f" + std::to_string(op.geti("fmt")) + "/d" + (dir ? (dir[strlen(dir) - 1] == '/' ? "2" : "1") : "0") + "/a" + std::to_string(std::min<size_t>(at.size(), 4)) + "/r" + std::to_string((op.geti("ext") & (int64_t)X_RANDOM_FOOT) ? 1 : 0) +
 						  "/s" + std::to_string(g_sim.srand_calls > srand0));
 			}
@@ -332,6 +352,17 @@ struct PkgEngine : Engine {
 				viol["clause"] = v.gets("clause"); viol["class"] = "fmt" + std::to_string(op.geti("fmt")); viol["detail"] = v.gets("detail"); viol["op"] = (int64_t)k;
 				viol["rand_ext"] = (op.geti("ext") & (int64_t)(X_RANDOM_FOOT | X_RANDOM_LABELS)) != 0;
 				return viol;
+			}
+			if (outs[k].has("archive2")) {
+				// the other API family produced different bytes under the same environment: that archive has to stand on its own
+				Json req2 = req; req2["cli"] = true; req2["archive"] = outs[k].at("archive2"); req2["ref_status"] = "not-applicable";
+				Json v2 = g_py.ask(req2);
+				if (v2.has("harness")) { Json h = Json::object(); h["harness"] = "oracle: " + v2.gets("harness"); return h; }
+				if (!v2.getb("ok")) {
+					Json viol = Json::object();
+					viol["clause"] = v2.gets("clause"); viol["class"] = "fmt" + std::to_string(op.geti("fmt")) + "/family-" + op.gets("also"); viol["detail"] = v2.gets("detail"); viol["op"] = (int64_t)k;
+					return viol;
+				}
 			}
 		}
 		return Json();
